@@ -10,37 +10,48 @@
 (* the loops.  Related properties: C12 (exit 0 exactly when the operation  *)
 (* completed), C13 (backing out never creates or clobbers the output),     *)
 (* C16 (change-pass re-locks under the confirmed new password).            *)
+(* Deviations (each must break MatchesContract):                           *)
+(*   ConfirmByPrefix      the confirmation counts as a match when one      *)
+(*                        entry is a prefix of the other                   *)
+(*   UnlockAttemptsCapped after two failed unlock attempts a third         *)
+(*                        password is asked for and not tried              *)
 (***************************************************************************)
 EXTENDS PromptContract, TLC, Json
-CONSTANT MaxLines
+CONSTANTS MaxLines, PVariant
+
+IsPrefix2(u, v) == u = v \/ u = "e" \/ (u = "x" /\ v = "xp")
+SameEntry(u, v) == IF PVariant = "ConfirmByPrefix" THEN IsPrefix2(u, v) \/ IsPrefix2(v, u) ELSE u = v
 
 \* ---------- Layer B ----------
-VARIABLES cmd, script, k, pc, a, b, old, out
-vars == <<cmd, script, k, pc, a, b, old, out>>
+VARIABLES cmd, script, k, pc, a, b, old, out, fails
+vars == <<cmd, script, k, pc, a, b, old, out, fails>>
 \* k: lines consumed; pc: which prompt is showing; a, b: what was typed at ask / confirm
 Init == /\ cmd \in PCmds /\ script = <<>> /\ k = 0 /\ a = "" /\ b = "" /\ old = ""
         /\ pc = (IF cmd = "pass_encrypt" THEN "ask" ELSE IF cmd = "change_pass" THEN "old" ELSE "unlock")
-        /\ out = [res |-> "run", pw |-> "n/a", used |-> 0]
+        /\ out = [res |-> "run", pw |-> "n/a", used |-> 0] /\ fails = 0
 
 Type(w) ==   \* the user types w at the current prompt
   /\ out.res = "run" /\ Len(script) < MaxLines
   /\ script' = Append(script, w) /\ k' = k + 1
   /\ CASE pc = "ask" -> a' = w /\ pc' = "confirm" /\ UNCHANGED <<b, old, out>>
        [] pc = "confirm" ->
-            IF a = w
+            IF SameEntry(a, w)
             THEN /\ pc' = "done" /\ b' = w /\ UNCHANGED <<a, old>>
                  /\ IF cmd = "change_pass"
                     THEN out' = (IF old = "good" THEN [res |-> "ok", pw |-> a, used |-> k + 1] ELSE [res |-> "error", pw |-> "n/a", used |-> k + 1])
                     ELSE out' = [res |-> "ok", pw |-> a, used |-> k + 1]
             ELSE pc' = "ask" /\ b' = w /\ UNCHANGED <<a, old, out>>      \* "Passwords do not match": ask again (stdin is a terminal)
        [] pc = "unlock" ->
-            IF w = "good" THEN pc' = "done" /\ out' = [res |-> "ok", pw |-> "n/a", used |-> k + 1] /\ UNCHANGED <<a, b, old>>
+            IF PVariant = "UnlockAttemptsCapped" /\ fails >= 2
+            THEN pc' = "done" /\ out' = [res |-> "error", pw |-> "n/a", used |-> k + 1] /\ UNCHANGED <<a, b, old>>   \* asked, not tried
+            ELSE IF w = "good" THEN pc' = "done" /\ out' = [res |-> "ok", pw |-> "n/a", used |-> k + 1] /\ UNCHANGED <<a, b, old>>
             ELSE UNCHANGED <<pc, a, b, old, out>>                            \* "Key unlock failed.": ask again
        [] pc = "old" -> old' = w /\ pc' = "ask" /\ UNCHANGED <<a, b, out>>
+  /\ fails' = IF pc = "unlock" /\ w # "good" THEN fails + 1 ELSE fails
   /\ UNCHANGED cmd
 Interrupt ==   \* Ctrl-C at the prompt
   /\ out.res = "run" /\ out' = [res |-> "interrupted", pw |-> "n/a", used |-> k]
-  /\ UNCHANGED <<cmd, script, k, pc, a, b, old>>
+  /\ UNCHANGED <<cmd, script, k, pc, a, b, old, fails>>
 Next == (\E w \in Words : Type(w)) \/ Interrupt
 Spec == Init /\ [][Next]_vars
 
